@@ -600,7 +600,6 @@ func compareRegexps(before, after string, maxLen int, budget int, rng interface{
 
 func (r *runner) shrink(pat string, d *diff, maxLen int, rng interface{ Intn(int) int }) (string, string, *diff) {
 	cur, curRw, curD := pat, r.one(pat), d
-	curClass := classify(cur, curRw, curD)
 	still := func(p string) (string, *diff) {
 		if !utf8.ValidString(p) {
 			return "", nil
@@ -619,12 +618,6 @@ func (r *runner) shrink(pat string, d *diff, maxLen int, rng interface{ Intn(int
 		nd, _ := compareRegexps(p, rw, maxLen, 1500, rng, first)
 		if nd == nil || nd.Kind != curD.Kind {
 			return "", nil
-		}
-		if cl := classify(p, rw, nd); cl != curClass {
-			if curClass != "unclassified" {
-				return "", nil
-			}
-			curClass = cl
 		}
 		return rw, nd
 	}
@@ -890,8 +883,8 @@ Definition case_ok (k : case) : bool :=
   | Some t =>
       String.eqb (print t) (k_pat k)                                   (* the dump is the tree of this text *)
       && String.eqb (simplify1 t) (k_c1 k)                              (* pass 1 as used for k_tree2 *)
-      && String.eqb (pr_list (fst (walk_a t))) (simp_text t)            (* tree version prints the text version *)
-      && Nat.eqb (snd (walk_a t)) (simp_score t)
+      && String.eqb (pr_list (fst (walk_a true t))) (simp_text t)            (* tree version prints the text version *)
+      && Nat.eqb (snd (walk_a true t)) (simp_score t)
       && ostr_eqb (simplify2 (k_pat k) t (fun s => if String.eqb s (k_c1 k) then k_tree2 k else None)) (k_obs k)
       (* the certificate used with C11_same_meaning_sound: pattern tree vs tree of the final rewrite *)
       && Bool.eqb (match k_tree3 k with Some t3 => same_meaning t t3 | None => false end) (k_cert k)
